@@ -35,6 +35,13 @@ pub fn byte_xor(arr1: &[u8], arr2: &[u8]) -> Vec<u8> {
 }
 
 pub fn get_crypto_rng() -> ChaCha20Rng {
+    #[cfg(blsful_verif)]
+    {
+        let rng = ChaCha20Rng::from_entropy();
+        crate::verif_hooks::rng_created(rng.clone());
+        return rng;
+    }
+    #[cfg(not(blsful_verif))]
     ChaCha20Rng::from_entropy()
 }
 
